@@ -406,6 +406,60 @@ type cvlFormat struct {
 	Items []cvlItem
 }
 
+// raw twin of cvlFormat: signatures as plain byte strings, so that forged lists can carry signatures the
+// typed form cannot even serialize (e.g. 64 bytes, no recovery id). Same wire encoding.
+type cvlItemRaw struct {
+	Timestamp int64
+	Signature []byte
+}
+
+type cvlFormatRaw struct {
+	Round int32
+	PSID  *consensus.PartSetIDAndAppData
+	Items []cvlItemRaw
+}
+
+// encodeCVL serializes c; sigOverride[i] (if present) replaces the signature bytes of item i.
+func encodeCVL(c *cvlFormat, sigOverride map[int][]byte) []byte {
+	r := cvlFormatRaw{Round: c.Round, PSID: c.PSID}
+	for i, it := range c.Items {
+		bs, _ := it.Signature.MarshalBinary()
+		if o, ok := sigOverride[i]; ok {
+			bs = o
+		}
+		r.Items = append(r.Items, cvlItemRaw{it.Timestamp, bs})
+	}
+	return codec.BC.MustMarshalToBytes(&r)
+}
+
+// badSignatureBytes: "unrecoverable" = well-formed 65 bytes from which no public key can be recovered (R is
+// not the x coordinate of a curve point); "no-recovery-id" = the first 64 bytes (R|S) of a genuine signature.
+func badSignatureBytes(kind string, sig common.Signature) []byte {
+	raw, err := sig.MarshalBinary()
+	if err != nil || len(raw) != 65 {
+		return nil
+	}
+	raw = append([]byte(nil), raw...)
+	if kind == "no-recovery-id" {
+		return raw[:64]
+	}
+	// change R until it still parses as a signature but is no x coordinate of a curve point
+	// (about every second value): key recovery then fails whatever was signed
+	dummy := crypto.SHA3Sum256([]byte("any message"))
+	for m := 1; m < 256; m++ {
+		cand := append([]byte(nil), raw...)
+		cand[31] ^= byte(m)
+		sg, err := crypto.ParseSignature(cand)
+		if err != nil {
+			continue
+		}
+		if _, err := sg.RecoverPublicKey(dummy); err != nil {
+			return cand
+		}
+	}
+	return nil
+}
+
 func medianTS(items []cvlItem) int64 {
 	l := len(items)
 	if l == 0 {
@@ -680,11 +734,22 @@ func (b *byzantine) forgeBlock(src *node, hf *block.V2HeaderFormat, bf *block.V2
 			return nil, nil
 		}
 		n := len(b.s.orc.validators[h-1])
-		kinds := []string{"minus-to-2/3", "minus-to-2/3+1", "duplicate", "foreign-key", "other-round", "bitflip", "prev-height-list", "empty", "time-shift"}
+		kinds := []string{"minus-to-2/3", "minus-to-2/3+1", "duplicate", "foreign-key", "other-round", "bitflip", "prev-height-list", "empty", "time-shift", "unrecoverable", "no-recovery-id"}
 		k := kinds[t.Choose("forge.c05", len(kinds))]
 		info.kind = k
 		items := append([]cvlItem(nil), c.Items...)
+		sigOverride := map[int][]byte{}
 		switch k {
+		case "unrecoverable", "no-recovery-id":
+			if len(items) == 0 {
+				return nil, nil
+			}
+			i := t.Choose("forge.badsig", len(items))
+			bs := badSignatureBytes(k, items[i].Signature)
+			if bs == nil {
+				return nil, nil
+			}
+			sigOverride[i] = bs
 		case "minus-to-2/3", "minus-to-2/3+1":
 			keep := 2 * n / 3
 			if k == "minus-to-2/3+1" {
@@ -772,12 +837,15 @@ func (b *byzantine) forgeBlock(src *node, hf *block.V2HeaderFormat, bf *block.V2
 			items[t.Choose("forge.ts", len(items))].Timestamp += 1 + int64(t.Choose("forge.ts.d", 5))
 		}
 		c.Items = items
-		nb.Votes = codec.BC.MustMarshalToBytes(&c)
+		nb.Votes = encodeCVL(&c, sigOverride)
 		nh.VotesHash = crypto.SHA3Sum256(nb.Votes)
 		if len(items) > 0 {
 			nh.Timestamp = medianTS(items) // so that the certificate is the only thing that can be wrong
 		}
 		valid, distinct, bad := b.verifyCVL(h-1, hf.PrevID, &c)
+		if len(sigOverride) > 0 {
+			valid, bad = false, bad+1 // an item nobody can verify
+		}
 		info.invalid = !valid
 		info.kind = fmt.Sprintf("%s", k)
 		b.s.rc.Event("FORGE-CVL kind=%s items=%d distinct=%d bad=%d n=%d oracle_valid=%v", k, len(items), distinct, bad, n, valid)
@@ -785,7 +853,7 @@ func (b *byzantine) forgeBlock(src *node, hf *block.V2HeaderFormat, bf *block.V2
 			b.s.rc.Probe("forged_cvl_still_valid")
 		}
 	case "C08":
-		kinds := []string{"votes-hash-mismatch", "tx-body-swap", "random-bytes", "truncated", "byteflip", "body-of-other-block", "btp-digest-junk", "btp-digest-other-valid", "header-field-nil", "header-field-garbage", "body-field-nil"}
+		kinds := []string{"votes-hash-mismatch", "tx-body-swap", "random-bytes", "truncated", "byteflip", "body-of-other-block", "btp-digest-junk", "btp-digest-other-valid", "header-field-nil", "header-field-garbage", "body-field-nil", "votes-bad-signature"}
 		k := kinds[t.Choose("forge.c08", len(kinds))]
 		info.kind = k
 		switch k {
@@ -832,6 +900,23 @@ func (b *byzantine) forgeBlock(src *node, hf *block.V2HeaderFormat, bf *block.V2
 				return nil, nil
 			}
 			nb.Votes = pv
+		case "votes-bad-signature":
+			// a vote list that is consistently bound to the header but contains a signature the codec can
+			// decode and not encode (no recovery id) or nobody can recover a key from: the decoder hashes the
+			// decoded votes, so this is decoder input like any other
+			var c cvlFormat
+			if _, err := codec.BC.UnmarshalFromBytes(bf.Votes, &c); err != nil || len(c.Items) == 0 {
+				return nil, nil
+			}
+			bk := []string{"no-recovery-id", "unrecoverable"}[t.Choose("forge.vbs", 2)]
+			i := t.Choose("forge.vbs.i", len(c.Items))
+			bs := badSignatureBytes(bk, c.Items[i].Signature)
+			if bs == nil {
+				return nil, nil
+			}
+			nb.Votes = encodeCVL(&c, map[int][]byte{i: bs})
+			nh.VotesHash = crypto.SHA3Sum256(nb.Votes)
+			info.kind = k + ":" + bk
 		case "header-field-nil", "header-field-garbage":
 			// structure-aware mutation: one byte-string field of a well-formed header is absent or junk.
 			// A block without proposer is still a well-formed block (the genesis block has none), so for
